@@ -282,7 +282,18 @@ def run_case(case) -> Result:
                 kind, idx, key = name.split("_", 2)
                 disk = np.load(path)
                 if kind == "trace":
-                    mem = np.asarray(traces[key][int(idx)]) if traces is not None and key in traces else None
+                    # distinct keys can share a file-name stem (characters not valid in file names are stripped; the
+                    # library then appends a counter): the file must equal the array of one of the keys with that stem
+                    stem = key.rsplit("-", 1)[0] if key.rsplit("-", 1)[-1].isdigit() else key
+                    group = [k for k in (traces or {}) if samp_valid(k) in (key, stem)]
+                    if len(group) > 1:
+                        if not any(np.array_equal(disk, np.asarray(traces[k][int(idx)]), equal_nan=(disk.dtype.kind == "f"))
+                                   for k in group if np.asarray(traces[k][int(idx)]).shape == disk.shape):
+                            res.fail("C15:disk-differs-from-returned", f"{tag}: {name}.npy on disk equals none of the "
+                                     f"returned arrays {group}")
+                            return res
+                        continue
+                    mem = np.asarray(traces[group[0]][int(idx)]) if group else None
                 else:
                     mem = None
                     for tk, d in (stats.items() if not b.hmc else [(b.int_key, stats)]):
